@@ -375,7 +375,36 @@ func (h *hostileCtx) hostilePackets() string {
 	}
 	var bad CPkt
 	kind := ""
-	switch t.Choose(8) {
+	switch t.Choose(11) {
+	case 8, 9:
+		// well-formed lengths, but the UTF-16 text ends in (or consists of) unpaired
+		// surrogate code units
+		units := [][]byte{{0x3d, 0xd8}, {0x00, 0xd8}, {0xff, 0xdb}, {0x00, 0xdc}, {0x3d, 0xd8, 0x3d, 0xd8}, {0x41, 0x00, 0x3d, 0xd8}}
+		txt := append(codec.UTF16LE([]string{"", "pc", "host-a.test", "eyJhbGciOiJIUzI1NiJ9"}[t.Choose(4)]), units[t.Choose(len(units))]...)
+		switch t.Choose(3) {
+		case 0:
+			b := binary.LittleEndian.AppendUint32(nil, 0)
+			b = binary.LittleEndian.AppendUint16(b, 1)
+			b = binary.LittleEndian.AppendUint16(b, 0)
+			b = binary.LittleEndian.AppendUint16(b, uint16(len(txt)))
+			bad = CPkt{Kind: KTunnelCreate, Malformed: true, Bytes: codec.Packet(codec.PktTunnelCreate, append(b, txt...))}
+			kind = "cookie-ending-in-lone-surrogate"
+		case 1:
+			bad = CPkt{Kind: KChannelCreate, Malformed: true, Bytes: codec.ChannelCreate(txt, 3389, -1)}
+			kind = "host-name-ending-in-lone-surrogate"
+		default:
+			b := binary.LittleEndian.AppendUint16(nil, 0)
+			b = binary.LittleEndian.AppendUint16(b, uint16(len(txt)))
+			bad = CPkt{Kind: KTunnelAuth, Malformed: true, Bytes: codec.Packet(codec.PktTunnelAuth, append(b, txt...))}
+			if t.Bool(1, 2) {
+				// the layout the gateway actually reads: length first
+				bad.Bytes = codec.Packet(codec.PktTunnelAuth, append(binary.LittleEndian.AppendUint16(nil, uint16(len(txt))), txt...))
+			}
+			kind = "client-name-ending-in-lone-surrogate"
+		}
+	case 10:
+		// keep-alives while the host streams and the client has stopped reading
+		return h.keepaliveWhileStalled(p, tr)
 	case 0:
 		lf := []uint32{0, 1, 7, 8, 9, 0x7fffffff, 0x80000000, 0xffffffff, 0x10000, 131073}[t.Choose(10)]
 		bad = CPkt{Kind: KUnframeable, Bytes: codec.PacketRaw(uint16(t.Choose(0x14)), lf, t.Bytes(t.Choose(40), 1))}
@@ -408,6 +437,15 @@ func (h *hostileCtx) hostilePackets() string {
 		bad = CPkt{Kind: KHandshake, Malformed: true, Bytes: codec.Packet(codec.PktHandshakeRequest, t.Bytes(t.Choose(6), 8))}
 		kind = "handshake-short"
 	}
+	// a malformed body of a known request is most interesting in the phase where the
+	// gateway actually parses it: put it right after the steps that lead there
+	placed := ""
+	if bad.Malformed && t.Bool(2, 3) && !(h.has("kerberos") && !h.has("openid") && !h.has("ntlm")) {
+		ideal := IdealHistory(c, h.tw, p, 1, func() int { return 10 }, false)
+		phase := map[PKind]int{KHandshake: 0, KTunnelCreate: 1, KTunnelAuth: 2, KChannelCreate: 3, KData: 4}[bad.Kind]
+		p.Pkts = append([]CPkt{}, ideal[:phase]...)
+		placed = fmt.Sprintf(" in-phase(after %d steps)", phase)
+	}
 	p.Pkts = append(p.Pkts, bad, PKeepalive(), PData([]byte("x")))
 	tuns := StartTunnels(c, []*TunPlan{p})
 	h.authorize(tuns[0].Client)
@@ -415,5 +453,54 @@ func (h *hostileCtx) hostilePackets() string {
 	c.S.Run(nil, 300, 2*time.Second)
 	tuns[0].Client.CloseAll(false)
 	c.S.Run(nil, 100, time.Second)
-	return fmt.Sprintf("packets:%s over %s after-authorisation=%v", kind, tr, after)
+	return fmt.Sprintf("packets:%s over %s after-authorisation=%v%s", kind, tr, after, placed)
+}
+
+// keepaliveWhileStalled: an open channel whose host keeps sending, a client that stops
+// reading for a while (the relay write is held), and keep-alive / data packets meanwhile.
+func (h *hostileCtx) keepaliveWhileStalled(p *TunPlan, tr string) string {
+	c := h.c
+	if !(h.has("openid") && len(h.mechs) == 1) {
+		return "packets:keepalive-while-stalled(not reachable in this configuration)"
+	}
+	p.Pkts = IdealHistory(c, h.tw, p, 1, func() int { return 10 }, false)
+	for i := 0; i < 3+c.T.Choose(4); i++ {
+		p.Pkts = append(p.Pkts, PKeepalive())
+	}
+	for i := 0; i < 6; i++ {
+		p.HostScript = append(p.HostScript, c.T.Bytes(2000+c.T.Choose(3000), byte(0x20+i)))
+	}
+	tuns := StartTunnels(c, []*TunPlan{p})
+	t := tuns[0]
+	held := false
+	c.S.AddActor("F hostile-stall "+p.Name, func() bool {
+		if held || c.S.Draining {
+			return false
+		}
+		for _, e := range t.Client.Events {
+			if e.Kind == "pkt" && e.Pkt.Type == codec.PktData {
+				return true
+			}
+		}
+		return false
+	}, func() {
+		held = true
+		for _, e := range c.S.Ends() {
+			if !e.Auto && !e.Owned && !e.Closed && strings.HasPrefix(e.Name, p.Name+".") {
+				e.HoldWrites = true
+			}
+		}
+		c.S.Count("fault.stall.write")
+	})
+	c.S.Run(func() bool { return t.SentAll() || t.Client.Failed != "" }, 6000, 20*time.Second)
+	c.S.Run(nil, 300, 2*time.Second)
+	for _, e := range c.S.Ends() {
+		if strings.HasPrefix(e.Name, p.Name+".") {
+			e.HoldWrites = false
+		}
+	}
+	c.S.Run(nil, 600, 2*time.Second)
+	t.Client.CloseAll(false)
+	c.S.Run(nil, 100, time.Second)
+	return "packets:keepalives-while-relay-write-held over " + tr
 }
